@@ -618,15 +618,25 @@ fn gen_pre_signatures(rng: &mut Rng, obj: &mut Obj) {
 }
 
 /// Ill-shaped `signatures` (the F11 cells): not an object, or the signer's entry not an object.
+/// The ill-shaped value is drawn from every non-object JSON kind (null, booleans, numbers, strings,
+/// arrays): a shape check that lets one kind through (e.g. "null is the same as absent") must meet it.
 fn gen_bad_signatures(rng: &mut Rng, obj: &mut Obj, entity: &str) {
-    let v = match rng.below(7) {
-        0 => serde_json::json!(5),
-        1 => serde_json::json!("x"),
-        2 => serde_json::json!([]),
-        3 => serde_json::Value::Null,
-        4 => serde_json::json!({ entity: 5 }),
-        5 => serde_json::json!({ entity: "sig", "other": {"ed25519:1": "AAAA"} }),
-        _ => serde_json::json!({ entity: [{}], "a": {} }),
+    let bad = |rng: &mut Rng| match rng.below(9) {
+        0 => serde_json::Value::Null,
+        1 => serde_json::json!(true),
+        2 => serde_json::json!(false),
+        3 => serde_json::json!(0),
+        4 => serde_json::json!(5),
+        5 => serde_json::json!(""),
+        6 => serde_json::json!("sig"),
+        7 => serde_json::json!([]),
+        _ => serde_json::json!([{}]),
+    };
+    let v = match rng.below(4) {
+        0 => bad(rng),
+        1 => serde_json::json!({ entity: bad(rng) }),
+        2 => serde_json::json!({ entity: bad(rng), "other": {"ed25519:1": "AAAA"} }),
+        _ => serde_json::json!({ entity: bad(rng), "a": {}, "zz.example": bad(rng) }),
     };
     obj.insert("signatures".into(), to_val(v));
 }
